@@ -70,6 +70,7 @@ func Resp4(req *dhcpv4.DHCPv4, avoid ...uint8) (resp *dhcpv4.DHCPv4, extraCode u
 	if vnd.Pick("extra", 0, 1) == 1 {
 		extraCode = vnd.U8("extracode")
 		vnd.Assume(extraCode != uint8(dhcpv4.OptionDHCPMessageType))
+		vnd.Assume(vnd.And(extraCode != 0, extraCode != 255)) // pad and end are not options
 		for _, a := range avoid {
 			vnd.Assume(extraCode != a)
 		}
